@@ -120,6 +120,8 @@ func checkC01(c *Check) {
 	importRules(c, "C10", checkC10, map[string]bool{"R1c": true}, "R12")
 	c.Rule("R13", "a target that fans the body out over several connections or targets reports each part's outcome for that part's recipients only: a recipient whose server accepted the message is never marked failed by another connection's failure (it would be retried – a duplicate) (C09.K11)", 1)
 	importRules(c, "C09", c09PerPartStatus, map[string]bool{"K11": true}, "R13")
+	c.Rule("R14", "a permanent answer of the next hop is not turned into a temporary one: smtpconn rewrites 552 to 452 for RCPT only (C16.R9)", 0)
+	importRules(c, "C16", func(s *Check) { c16ReplyClassRewrittenForRcptOnly(s, "R9") }, map[string]bool{"R9": true}, "R14")
 }
 
 func c01OptionalFields(c *Check) {
